@@ -45,6 +45,24 @@ CHECKS = {
  "C32": ("Generated operation histories on packed Terminals / KTuple / KTuples at every bit-width boundary and k in 0..=10, mirrored on Vec<u16> / set-of-sequence models; observers, equality, hash and ordering must be functions of the denoted sequence.",
          "KTuple equality is only demanded between values with equal sequence, k and completeness; pushing onto the epsilon value is excluded (no documented meaning).",
          "property-based testing (proptest): model-based (state machine) testing against a sequence model"),
+ "C13": ("Generated scanners (regex-AST terminals in three quoting styles, overlapping patterns, lookaheads, 1-3 scanner states, enter/push/pop transitions, auto newline/whitespace flags, comments, %allow_unmatched) x inputs; token sequence of the real TokenStream for lookahead sizes 1,2,3,5 and the parse-tree leaves compared with a reference lexer that implements the documented rules on the regex ASTs.",
+         "Terminals are declared by primary productions in a known order (the only form for which 'declared first' is documented); regex features outside the generated subset are not explored; the reference matcher is unit-tested against the regex crate.",
+         "property-based testing (proptest): differential against a reference lexer, metamorphic over lookahead size and consumption"),
+ "C14": ("Generated scanner grammars (LL and LR) x inputs with CR/LF mixes, tabs, BMP/astral text, comments and unmatched gaps: tokens contiguous and covering the input, text = input slice, line/column = independent position function, tree leaves = tokens.",
+         "One genuine defect of the external scnr2 crate (line counting after backtracking over a line feed) is a recorded finding matched by signature.",
+         "property-based testing (proptest): round-trip (tokens reassemble the input) + differential position oracle"),
+ "C15": ("Generated comment declarations (self-overlapping delimiters, regex meta characters, all quoting styles, several styles at once) x adversarial inputs; whole token sequence compared with the reference lexer's documented comment extents.",
+         "Two genuine defects whose pattern strings are pinned by the repository's tests are recorded findings with exact predicates (three-character end delimiter after a partial delimiter; line comment ended by a lone CR).",
+         "property-based testing (proptest): differential against a reference lexer"),
+ "C16": ("Random multi-state scanner grammars and a fixed grammar with every combination of auto newline / whitespace / allow_unmatched x stray texts: unmatched text where it is not allowed must make the parse fail; where allowed it must not change the verdict and must stay in the tree.",
+         "Whether a text is unmatched is decided by the reference lexer, not assumed. One genuine defect (stray LF with %auto_newline_off) is a recorded finding.",
+         "property-based testing (proptest): reference-lexer oracle + metamorphic (input with/without stray text)"),
+ "C17": ("Random LL and LALR grammars with comments and a %skip-listed terminal x token strings rendered plainly and decorated with whitespace, newlines, comments and skip-listed tokens: same verdict, same action sequence, comments delivered once in order, every skipped token a tree leaf.",
+         "Skip lists are exercised in the INITIAL state; scanner-state switching combined with skip lists is covered by C13/C18 only on the token level.",
+         "property-based testing (proptest): metamorphic relation between plain and decorated input"),
+ "C18": ("Grammars repeating 9 texts across '..', \"..\", /../ with optional lookaheads, inline or via primary non-terminals, with %on / %skip: the number each occurrence carries in PRODUCTIONS / export model is the number whose scanner pattern is that occurrence's expansion; numbers shared iff identity equal; names, skip list, transitions, LR actions consistent; end-to-end parse of own samples.",
+         "One genuine defect (lookahead written once as string and once as regex gives two numbers) is a recorded finding.",
+         "property-based testing (proptest): cross-artefact consistency invariant"),
 }
 
 def main():
